@@ -15,6 +15,7 @@ type cacheControl struct {
 
 func parseCacheControl(ccHeader string) (cacheControl, error) {
 	cc := cacheControl{}
+	var parseErr error
 	// Parse the Cache-Control header for max-age directive
 	for directive := range strings.SplitSeq(ccHeader, ",") {
 		directive = strings.TrimSpace(directive)
@@ -24,13 +25,20 @@ func parseCacheControl(ccHeader string) (cacheControl, error) {
 		} else {
 			directive = strings.ToLower(directive)
 		}
-		if directive == "no-cache" || directive == "no-store" {
+		if directive == "no-cache" || directive == "no-store" || directive == "private" {
+			// A shared cache must not store a private response either.
 			cc.noCache = true
 		} else if after, ok := strings.CutPrefix(directive, "max-age="); ok {
 			// max-age directive specifies the maximum amount of time a response is considered fresh in seconds.
 			maxAge, err := strconv.ParseInt(after, 10, 64)
 			if err != nil {
-				return cacheControl{}, fmt.Errorf("%w: %v", ErrParseMaxAge, err)
+				// Keep going so that the other directives are still seen; a response
+				// whose freshness cannot be determined is not cached.
+				cc.noCache = true
+				if parseErr == nil {
+					parseErr = fmt.Errorf("%w: %v", ErrParseMaxAge, err)
+				}
+				continue
 			}
 			if maxAge < 1 {
 				cc.noCache = true // If max-age is less than 1, treat it as no-cache
@@ -41,5 +49,5 @@ func parseCacheControl(ccHeader string) (cacheControl, error) {
 		}
 	}
 
-	return cc, nil
+	return cc, parseErr
 }
